@@ -144,6 +144,20 @@ def rule_behaviour(case, extra_builtins=None):
     if execo.same(orig, after):
         info["status"] = "same"
         return [], info
+    if after["outcome"] == "NameError" and fname != "add_missing_imports":
+        # rules emit qualified names (collections.defaultdict, heapq.nsmallest, ...) and leave the import to the
+        # add_missing_imports stage that format_code always runs afterwards: judge the rule together with that stage
+        st2, out2, _ = run_tool(env.mod("fixes").add_missing_imports, out)
+        if st2 == "ok" and isinstance(out2, str):
+            with warnings.catch_warnings():
+                warnings.simplefilter("ignore")
+                after2 = execo.run(out2, 50 * orig["used"] + 10_000, extra_builtins=extra_builtins)
+            if execo.same(orig, after2):
+                info["status"] = "same"
+                info["needed_import_stage"] = True
+                return [], info
+            if after2["outcome"] != "NameError":
+                after, out = after2, out2  # judge the composed result
     klass = failure_class(orig, after)
     info["status"] = "differs"
     detail = (f"{fname}: {klass}\n--- original stdout {orig['stdout'][:300]!r}\n--- new ({after['outcome']}) stdout {after['stdout'][:300]!r} {after.get('error', '')}\n"
